@@ -183,6 +183,16 @@ pub struct SubsCtx {
     pub upd_cache: SharedUpdateBroadcastCache,
 }
 
+impl SubsCtx {
+    /// the caches the node's own API router would use
+    pub fn of(node: &Node) -> Self {
+        Self {
+            cache: node.subs_cache.clone(),
+            upd_cache: node.upd_cache.clone(),
+        }
+    }
+}
+
 impl Default for SubsCtx {
     fn default() -> Self {
         Self {
@@ -509,6 +519,33 @@ pub async fn wait_broadcast(node: &mut Node, version: u64) -> Result<Vec<ChangeV
     }
 }
 
+/// receive broadcast chunks until every listed own version is covered completely
+pub async fn wait_broadcasts(node: &mut Node, versions: &[u64]) -> Result<(), String> {
+    let mut covered: BTreeMap<u64, (rangemap::RangeInclusiveSet<u64>, Option<u64>)> = versions.iter().map(|v| (*v, (Default::default(), None))).collect();
+    let deadline = Instant::now() + Duration::from_secs(60);
+    loop {
+        if covered.values().all(|(c, l)| l.is_some_and(|l| c.gaps(&(0..=l)).next().is_none())) {
+            return Ok(());
+        }
+        let rem = deadline.saturating_duration_since(Instant::now());
+        if rem.is_zero() {
+            return Err(format!("broadcasts of local versions {versions:?} not all seen within the watchdog"));
+        }
+        match tokio::time::timeout(rem, node.rx_bcast.recv()).await {
+            Ok(Some(BroadcastInput::AddBroadcast(BroadcastV1::Change(c)))) | Ok(Some(BroadcastInput::Rebroadcast(BroadcastV1::Change(c)))) => {
+                if let Changeset::Full { version: v, seqs, last_seq, .. } = &c.changeset
+                    && let Some(e) = covered.get_mut(&v.0)
+                {
+                    e.0.insert(seqs.start().0..=seqs.end().0);
+                    e.1 = Some(last_seq.0);
+                }
+            }
+            Ok(None) => return Err("bcast channel closed".into()),
+            Err(_) => {}
+        }
+    }
+}
+
 /// deliver a batch, then run every buffered apply the hook announced
 pub async fn deliver_and_apply(node: &mut Node, pump: &mut Pump, batch: Vec<ChangeV1>) -> Result<(), String> {
     node.deliver(batch.into_iter().map(|c| (c, ChangeSource::Sync)).collect()).await?;
@@ -667,6 +704,44 @@ pub fn random_stmt(rng: &mut impl Rng, tables: &[&str], info: &mut TxInfo) -> St
                     info.desc.push(format!("del g{gid}"));
                     st("DELETE FROM g WHERE gid = ?", vec![SqliteValue::Integer(gid)])
                 }
+            }
+        }
+    }
+}
+
+/// insert / delete / update on one of two keys of `table` (for delete-reinsert races)
+pub fn random_stmt_small_keys(rng: &mut impl Rng, table: &str, info: &mut TxInfo) -> Statement {
+    let id = rng.random_range(1..=2i64);
+    let del = rng.random_range(0..5) < 2;
+    match table {
+        "p" => {
+            info.touches_p = true;
+            if del {
+                info.desc.push(format!("del p{id}"));
+                st("DELETE FROM p WHERE id = ?", vec![SqliteValue::Integer(id)])
+            } else {
+                info.desc.push(format!("upsert p{id}"));
+                st("INSERT INTO p (id, grp, name, v) VALUES (?, 1, 'b', ?) ON CONFLICT (id) DO UPDATE SET v = excluded.v", vec![SqliteValue::Integer(id), SqliteValue::Integer(rng.random_range(0..1000))])
+            }
+        }
+        "c" => {
+            info.c_pids.push(id);
+            if del {
+                info.desc.push(format!("del c{id}a"));
+                st("DELETE FROM c WHERE pid = ? AND k = 'a'", vec![SqliteValue::Integer(id)])
+            } else {
+                info.desc.push(format!("upsert c{id}a"));
+                st("INSERT INTO c (pid, k, val, note) VALUES (?, 'a', ?, 'b') ON CONFLICT (pid, k) DO UPDATE SET val = excluded.val", vec![SqliteValue::Integer(id), SqliteValue::Integer(rng.random_range(0..1000))])
+            }
+        }
+        _ => {
+            info.g_gids.push(id);
+            if del {
+                info.desc.push(format!("del g{id}"));
+                st("DELETE FROM g WHERE gid = ?", vec![SqliteValue::Integer(id)])
+            } else {
+                info.desc.push(format!("upsert g{id}"));
+                st("INSERT INTO g (gid, label, w) VALUES (?, 'b', ?) ON CONFLICT (gid) DO UPDATE SET w = excluded.w", vec![SqliteValue::Integer(id), SqliteValue::Integer(rng.random_range(0..1000))])
             }
         }
     }
